@@ -260,7 +260,14 @@ def match_finding(findings, prop, mm, ctx):
     for f in findings:
         if prop not in f.get("properties", [f.get("property")]):
             continue
-        sig = f.get("signature", {})
+        sigs = f.get("signature_any") or [f.get("signature", {})]
+        if any(_sig_matches(sig, mm, ctx) for sig in sigs):
+            return f
+    return None
+
+
+def _sig_matches(sig, mm, ctx):
+    for _ in (0,):
         if "what" in sig and not re.search(sig["what"], mm.get("what", "")):
             continue
         if "got" in sig and not re.search(sig["got"], mm.get("got", "")):
@@ -277,8 +284,8 @@ def match_finding(findings, prop, mm, ctx):
             continue
         if "step_lacks" in sig and any(re.search(sig["step_lacks"], w) for w in mm.get("step_whats", [])):
             continue
-        return f
-    return None
+        return True
+    return False
 
 
 # --------------------------------------------------------------------------
